@@ -350,6 +350,14 @@ def c02(ctx):
                 else: ops.append(hg.push(0))
                 ops.append(('probe', 0))
             cases.append((name, ops)); note_case(res, name, ops)
+    # coded regions: merged from trained sources, every issued index re-read after every push (shared partial bytes)
+    for name, e in pick_entries(lambda nm, e: coded(e)):
+        for _ in range(3 if not ctx.thorough else 30):
+            ops, pool = trained_prefix(ctx, e, 0, 1)
+            nf = len(forms(e))
+            for _ in range(ctx.rng.choice([6, 12, 25])):
+                ops.append(('push', 0, ctx.rng.randrange(nf), ctx.rng.choice(pool))); ops.append(('probe', 0))
+            cases.append((name, ops)); note_case(res, name, ops)
     res.exhaustive = True
     res.extra['exhaustive_part'] = f'all push sequences of length <= {L} over 3 values per entry'
     run_regions(ctx, res, cases, lambda e, ops, obs, mo=None: ref_oracle(e, ops, obs, (), mo), 'values')
@@ -425,6 +433,26 @@ def c09(ctx):
             ops += [('probe', 1), ('probe', 0)]
             ops += gen_ops(ctx, hg, ctx.rng.choice([1, 3]), 1, p_clear=0.15)
             ops += [('probe', 0), ('probe', 1)]
+            cases.append((name, ops)); note_case(res, name, ops)
+    for name, e in pick_entries(lambda nm, e: e[0] == 'huf'):
+        for _ in range(4 if not ctx.thorough else 40):
+            k = ctx.rng.choice([11, 13, 14])
+            syms = list(range(k)); perm = syms[:]; ctx.rng.shuffle(perm)
+            def fibc(n):
+                a, b, out = 1, 1, []
+                for _ in range(n): out.append(a); a, b = b, a + b
+                return out
+            ca = dict(zip(syms, fibc(k))); cb = dict(zip(perm, fibc(k)))
+            ops = [('push', 2, 0, [s_] * c) for s_, c in ca.items()] + [('merge', 0, [2])]
+            ops += [('clear', 2)] + [('push', 2, 0, [s_] * c) for s_, c in cb.items()] + [('merge', 1, [2])]
+            rare_a = syms[0]; rare_b = perm[0]
+            items = [[rare_a] * 3, [rare_b] * 3, [rare_a, syms[-1], rare_a], [ctx.rng.choice(syms) for _ in range(6)]]
+            for v in items: ops.append(('push', 0, 0, v))
+            for v in items[::-1]: ops.append(('push', 1, 0, v))
+            ops += [('clonefrom', 1, 0), ('probe', 1), ('probe', 0)]
+            for v in items:
+                ops += [('push', 0, 0, v), ('push', 1, 0, v, 'twin')]
+            ops += [('probe', 1), ('probe', 0)]
             cases.append((name, ops)); note_case(res, name, ops)
     res.assumptions.append('independence of the two copies in the implementation rests on Rust ownership (no unsafe/Rc/interior '
                            'mutability in any Clone impl); the model is a value model and cannot exhibit aliasing')
@@ -571,6 +599,9 @@ def c12(ctx):
                 elif r < 0.1: ops += [('merge', 1, [0]), hg.push(1), hg.push(1), ('probe', 1)]
                 elif r < 0.14 and hg.caps['clone']: ops += [('clone', 2, 0), hg.push(2), ('probe', 2)]
                 elif r < 0.2 and any(o[0] == 'push' and o[1] == 0 for o in ops): ops.append(('probe', 0))
+                elif r < 0.26 and hg.caps['reserve_regions']:
+                    # reserve for narrower / wider / empty regions in between (must be invisible)
+                    ops += [('clear', 3)] + [hg.push(3) for _ in range(ctx.rng.choice([0, 1, 3]))] + [('resregs', 0, ctx.rng.choice([[3], [3, 3], []]))]
                 else: ops.append(hg.push(0))
             ops.append(('probe', 0))
             cases.append((name, ops)); note_case(res, name, ops)
@@ -616,6 +647,18 @@ def c14(ctx):
                 if r < 0.5: ops.append(('pushitem', 1, 0, j, ctx.rng.random() < 0.5))
                 else: ops.append(('cloneonto', 0, j, hg.value(repeat=0.2)))
             ops += [('read', 0), ('probeo', 0), ('probe', 1), ('probeo', 1), ('read', 1)]
+            cases.append((name, ops)); note_case(res, name, ops)
+    # coded regions: read items of merged (encoded / dictionary-coded) regions copied across generations
+    for name, e in pick_entries(lambda nm, e: coded(e)):
+        for _ in range(4 if not ctx.thorough else 40):
+            ops, pool = trained_prefix(ctx, e, 0, 3)                 # A = slot 0
+            m = ctx.rng.choice([3, 6])
+            ops += [('push', 0, 0, ctx.rng.choice(pool)) for _ in range(m)]
+            ops += [('merge', 1, [0])]                               # B = merge(A), filled with A's read items only
+            ops += [('pushitem', 1, 0, j, ctx.rng.random() < 0.3) for j in range(m)]
+            ops += [('probe', 1), ('merge', 2, [1])]                 # C = merge(B)
+            ops += [('pushitem', 2, 1, j, False) for j in range(m)]
+            ops += [('probe', 2), ('probeo', 2), ('cloneonto', 1, 0, ctx.rng.choice(pool)), ('read', 1)]
             cases.append((name, ops)); note_case(res, name, ops)
     run_regions(ctx, res, cases, lambda e, ops, obs, mo=None: ref_oracle(e, ops, obs, (), mo), 'values')
     return res
@@ -727,6 +770,21 @@ def c20(ctx):
                 ops += [('probe', 2), ('probe', 3)]
             ops += ([('heap', 0), ('heap', 1)] if hg.caps['heap'] else []) + [('probe', 0), ('probe', 1)]
             cases.append((name, ops)); note_case(res, name, ops)
+    for name, e in pick_entries(lambda nm, e: e[0] == 'huf'):
+        for _ in range(6 if not ctx.thorough else 60):
+            k = ctx.rng.choice([4, 5, 7])
+            syms = list(range(k)); cnt = [ctx.rng.choice([1, 1, 2]) for _ in syms]
+            ops = [('push', 0, 0, syms * 2), ('merge', 0, [0])]          # slot 0: encoded container covering syms
+            vals = [[s_] for s_, c in zip(syms, cnt) for _ in range(c)]
+            ctx.rng.shuffle(vals)
+            for j, v in enumerate(vals): ops.append(('push', 0, 0, v))
+            # slot 1 receives slot 0's read items, slot 2 the same values as slices
+            for j, v in enumerate(vals): ops += [('pushitem', 1, 0, j, ctx.rng.random() < 0.3), ('push', 2, ctx.rng.randrange(len(forms(e))), v)]
+            ops += [('merge', 3, [1]), ('merge', 0, [2])]
+            for v in vals + [syms]:
+                ops += [('push', 3, 0, v), ('push', 0, 0, v, 'twin')]
+            ops += [('probe', 3), ('probe', 0)]
+            cases.append((name, ops)); note_case(res, name, ops)
     def heap_pair(t, op, g, ref, sc):
         if op[0] == 'heap':
             if op[1] == 0: sc['h0'] = heap_used(g)
@@ -746,7 +804,7 @@ def c20(ctx):
                         found.append(f'{m.group(2)}: Push<{re.sub(chr(92) + "s+", " ", m.group(1))}>')
         return sorted(found)
     res.extra['push_impls_in_source'] = inventory()
-    run_regions(ctx, res, cases, lambda e, ops, obs, mo=None: ref_oracle(e, ops, obs, [paired_clause(0, 1), paired_clause(2, 3), heap_pair], mo), 'full')
+    run_regions(ctx, res, cases, lambda e, ops, obs, mo=None: ref_oracle(e, ops, obs, [paired_clause(0, 1), paired_clause(2, 3), paired_clause(3, 0), heap_pair], mo), 'full')
     return res
 
 
@@ -789,7 +847,7 @@ def run_ic_cases(ctx, res, cases, cost_oracle=False):
             def strip(o):
                 if o.startswith('[') and kind != 'stride':
                     v = gen.parse(o)
-                    if len(v) == 7: return gen.show(v[:6])
+                    if len(v) >= 7: return gen.show(v[:6])
                 return o
             pi = [strip(o) for o in io]
             if pi != mo:
@@ -830,6 +888,10 @@ def ic_oracle(kind, ops, obs, cost):
             else:
                 if v[3] != [None, None]: return f'op {t}: index(len), index(len+1) did not panic: {gen.show(v[3])}'
                 if v[4] != ('S', l): return f'op {t}: iteration yields {gen.show(v[4])} for {[hex(x) for x in l]}'
+                if len(v) > 8:
+                    want_nth = [(('S', l[1 + k]) if 1 + k < len(l) else None) for k in range(min(len(l), 5) + 1)]
+                    if v[7] != want_nth: return f'op {t}: iter(); next(); nth(k) yields {gen.show(v[7])} for {[hex(x) for x in l]}'
+                    if v[8] != ('S', l[1::2]): return f'op {t}: iter(); next(); step_by(2) yields {gen.show(v[8])} for {[hex(x) for x in l]}'
                 if cost:
                     want = {'vec': [8 * len(l)], 'ilist': ilist_cost(l), 'iopt': iopt_cost(l)}[kind]
                     if v[5] != want: return f'op {t}: heap_size used {v[5]} but the documented rule gives {want} for {[hex(x) for x in l]}'
@@ -912,7 +974,7 @@ FS_EXPR = {name: (e, o) for name, e, o in catalogue.FS_ENTRIES}
 def fs_op_str(op):
     k = op[0]
     if k == 'copy': return 'copy ' + gen.show(op[1])
-    if k in ('extend', 'fromiter'): return k + ' ' + gen.show(list(op[1]))
+    if k in ('extend', 'fromiter', 'extendlazy'): return k + ' ' + gen.show(list(op[1]))
     if k == 'reserve': return 'reserve %x' % op[1]
     return k
 
@@ -924,7 +986,7 @@ def fs_oracle(e, o, ops, obs, index_free=False):
         if g in ('[62]', '[63]', 'CRASH'): return f'op {t} ({fs_op_str(op)}): panicked or ill-typed ({g})'
         k = op[0]
         if k == 'copy': l.append(op[1])
-        elif k == 'extend': l += list(op[1])
+        elif k in ('extend', 'extendlazy'): l += list(op[1])
         elif k == 'fromiter': l = list(op[1])
         elif k == 'clear': l = []
         elif k == 'observe':
@@ -955,7 +1017,8 @@ def gen_fs_cases(ctx, names, n, maxops, observe_each=True):
             for _ in range(ctx.rng.choice([2, 5, maxops])):
                 r = ctx.rng.random()
                 if r < 0.5: ops.append(('copy', val()))
-                elif r < 0.65: ops.append(('extend', [val() for _ in range(ctx.rng.randrange(5))]))
+                elif r < 0.6: ops.append(('extend', [val() for _ in range(ctx.rng.randrange(5))]))
+                elif r < 0.65: ops.append(('extendlazy', [val() for _ in range(ctx.rng.randrange(4))]))
                 elif r < 0.72: ops.append(('fromiter', [val() for _ in range(ctx.rng.randrange(5))]))
                 elif r < 0.8: ops.append(('clear',))
                 elif r < 0.88: ops.append(('clone',))
@@ -995,7 +1058,7 @@ def run_fs_cases(ctx, res, cases, index_free_names=()):
 def note_fs(res, cases):
     for name, ops in cases:
         s = name + ';' + ';'.join(fs_op_str(o) for o in ops)
-        if sum(1 for o in ops if o[0] in ('copy', 'extend', 'fromiter')) >= 2: res.nontrivial.add(s)
+        if sum(1 for o in ops if o[0] in ('copy', 'extend', 'fromiter', 'extendlazy')) >= 2: res.nontrivial.add(s)
         for o in ops: res.tag(o[0])
     for name, ops in cases[:: max(1, len(cases) // 5)][:5]:
         res.samples.append({'entry': name, 'ops': [fs_op_str(o) for o in ops]})
@@ -1420,6 +1483,21 @@ def c07(ctx):
         ops = [('push', 0, 0, v) for v in many] + [('merge', 1, [0]), ('push', 1, 0, [50, 7]), ('push', 1, 0, [51, 9, 9]),
                ('push', 1, 0, [1, 0, 0]), ('push', 1, 0, [9, 9]), ('read', 1), ('merge', 2, [1, 0]), ('push', 2, 0, [50, 7]), ('read', 2)]
         cases.append(('cdc', ops)); res.nontrivial.add('lossy%d' % it)
+    # a dictionary whose entries total more than 64 KiB
+    for it in range(1 if not ctx.thorough else 4):
+        big = [[100 + (i % 50)] + [(i * 7 + j) % 251 for j in range(999)] for i in range(70)]
+        ops = []
+        for i, v in enumerate(big): ops += [('push', 0, 0, v)] * (2 + (i % 3))
+        ops += [('merge', 1, [0])] + [('push', 1, 0, v) for v in big[::7] + big[-3:]] + [('read', 1)]
+        cases.append(('cdc', ops)); res.nontrivial.add('bigdict%d' % it)
+    # the dominating string is the lexicographically greatest key among more distinct strings than free tags
+    for it in range(1 if not ctx.thorough else 4):
+        cold = [[99] + list(('%05d' % i).encode()) for i in range(300 + 50 * it)]
+        hot = [122, 122, 45, 104, 111, 116]; warm = [97, 45, 104, 111, 116]
+        seq = cold + [hot] * 300 + [warm] * 200
+        ctx.rng.shuffle(seq)
+        ops = [('push', 0, 0, v) for v in seq] + [('merge', 1, [0]), ('push', 1, 0, hot), ('push', 1, 0, warm), ('push', 1, 0, cold[0]), ('read', 1)]
+        cases.append(('cdc', ops)); res.nontrivial.add('hotlast%d' % it)
     def clause_for(e):
         def clause(t, op, g, ref, sc):
             k = op[0]
@@ -1529,6 +1607,22 @@ def c06(ctx):
             # clear: raw mode again
             ops3 = ops[:len(ops) // 2] + [('clear', 2), ('push', 2, 0, [unc, unc]), ('push', 2, 0, []), ('probe', 2)]
             cases.append((name, ops3))
+            # encoded, pushed into, cleared, refilled raw with other statistics, merged again: only the new statistics count
+            c4 = {s_: rng.choice([1, 2, 5]) for s_ in alphabet[:max(2, len(alphabet) // 2)]}
+            a4 = sorted(c4)
+            ops4 = train_ops(0, counts) + [('merge', 2, [0])] + [('push', 2, 0, [alphabet[-1]] * 3), ('clear', 2)] + train_ops(2, c4) + [('merge', 3, [2])] + use_ops(3, a4, None)
+            cases.append((name, ops4)); note_case(res, name, ops4)
+    if ctx.thorough:
+        # 27-bit codes (Fibonacci counts over 28 symbols, 832 039 training symbols): 7 carried bits + code > 32
+        counts = {i: c for i, c in enumerate(fib(28))}
+        alphabet = sorted(counts)
+        ops = [('push', 0, 0, [s_] * c) for s_, c in counts.items()] + [('merge', 1, [0])]
+        for s_ in alphabet: ops.append(('push', 1, 0, [s_]))
+        for off in range(8):
+            for s_ in alphabet[:6]:
+                ops += [('push', 1, 0, [alphabet[-1]] * off), ('push', 1, 0, [alphabet[-2], s_, alphabet[-2]])]
+        ops.append(('probe', 1))
+        cases.append(('huf_u8', ops)); note_case(res, 'huf_u8', ops[28:60])
     def clause(t, op, g, ref, sc):
         k = op[0]
         st = sc.setdefault('st', {i: {'cnt': {}, 'enc': None, 'lens': {}, 'bits': 0, 'used': {}} for i in range(4)})
